@@ -153,10 +153,12 @@ func nativeReplayMode(pkgDir string, cexPaths []string, timeout time.Duration, r
 			r.Detail = rest
 		}
 	}
-	if race && strings.Contains(text, "WARNING: DATA RACE") {
-		for _, r := range res {
-			if r.Status == "PASS" || r.Status == "NOTRUN" {
-				r.Status, r.Detail = "FAIL", "data race reported by the race detector"
+	if race {
+		if found, where := sheensRace(text); found {
+			for _, r := range res {
+				if r.Status == "PASS" || r.Status == "NOTRUN" {
+					r.Status, r.Detail = "FAIL", "data race reported by the race detector: "+where
+				}
 			}
 		}
 	}
@@ -173,6 +175,44 @@ func nativeReplayMode(pkgDir string, cexPaths []string, timeout time.Duration, r
 		}
 	}
 	return res, text, nil
+}
+
+// sheensRace: the race detector's output holds a report whose two accesses are both in the code under test
+// (the first frame under the tree that is not a harness file); races among harness code are ignored.
+func sheensRace(text string) (bool, string) {
+	blocks := strings.Split(text, "WARNING: DATA RACE")
+	for _, b := range blocks[1:] {
+		if i := strings.Index(b, "=================="); i >= 0 {
+			b = b[:i]
+		}
+		var sites []string
+		lines := strings.Split(b, "\n")
+		for i := 0; i < len(lines); i++ {
+			l := strings.TrimSpace(lines[i])
+			if !(strings.HasPrefix(l, "Write at") || strings.HasPrefix(l, "Read at") ||
+				strings.HasPrefix(l, "Previous write at") || strings.HasPrefix(l, "Previous read at")) {
+				continue
+			}
+			// the stack follows: function line, then "file:line +0x.." line; take the first frame under the tree
+			site := ""
+			for j := i + 1; j < len(lines) && strings.TrimSpace(lines[j]) != ""; j++ {
+				f := strings.TrimSpace(lines[j])
+				if strings.HasPrefix(f, repoDir+"/") {
+					if k := strings.Index(f, " "); k > 0 {
+						f = f[:k]
+					}
+					site = f
+					break
+				}
+			}
+			sites = append(sites, site)
+		}
+		if len(sites) >= 2 && sites[0] != "" && sites[1] != "" &&
+			!strings.Contains(sites[0], "zz_verif") && !strings.Contains(sites[1], "zz_verif") {
+			return true, sites[1] + " / " + sites[0]
+		}
+	}
+	return false, ""
 }
 
 func writeCex(dir string, name string, c *gx.Cex) (string, error) {
@@ -268,14 +308,40 @@ func cmdCheck(args []string) int {
 		if err != nil {
 			return inconclusive("witness " + k.Witness + ": " + err.Error())
 		}
-		byPkg[c.Pkg] = append(byPkg[c.Pkg], p)
+		key := c.Pkg
+		if c.Label == "no-data-race" {
+			key = "race:" + c.Pkg
+		}
+		byPkg[key] = append(byPkg[key], p)
 		wit[p] = k
 	}
 	violationPaths := []string{}
 	for pkg, paths := range byPkg {
-		rr, out, err := nativeReplay(pkg, paths, 10*time.Minute)
+		raceMode := strings.HasPrefix(pkg, "race:")
+		rr, out, err := nativeReplayMode(strings.TrimPrefix(pkg, "race:"), paths, 10*time.Minute, raceMode)
 		if err != nil {
 			return inconclusive("witness replay: " + err.Error() + "\n" + tail(out, 2000))
+		}
+		if raceMode {
+			// the race detector needs both accesses to happen in the run: give a recorded race three attempts
+			for attempt := 0; attempt < 2; attempt++ {
+				var again []string
+				for p, r := range rr {
+					if r.Status != "FAIL" {
+						again = append(again, p)
+					}
+				}
+				if len(again) == 0 {
+					break
+				}
+				if rr2, _, err2 := nativeReplayMode(strings.TrimPrefix(pkg, "race:"), again, 10*time.Minute, true); err2 == nil {
+					for p, r := range rr2 {
+						if r.Status == "FAIL" {
+							rr[p] = r
+						}
+					}
+				}
+			}
 		}
 		for p, r := range rr {
 			k := wit[p]
@@ -460,6 +526,13 @@ func cmdCheck(args []string) int {
 			}
 			continue
 		}
+		if (r == nil || r.Status != "FAIL") && pc.label == "no-data-race" {
+			// a race seen by the executor's happens-before detector: confirm with the same harness under -race
+			rr, _, err := nativeReplayMode(pc.pkg, []string{pc.path}, 20*time.Minute, true)
+			if err == nil && rr[pc.path] != nil && rr[pc.path].Status == "FAIL" {
+				r = rr[pc.path]
+			}
+		}
 		if (r == nil || r.Status != "FAIL") && pc.kind == "write" && raceHarness[pc.harness] != "" {
 			// "write to shared data": confirm by running the same walk concurrently under the race detector
 			if c, err := readCex(pc.path); err == nil {
@@ -625,7 +698,7 @@ func cmdReplay(args []string) int {
 		fmt.Println("cannot read", path, err)
 		return 3
 	}
-	rr, out, err := nativeReplay(c.Pkg, []string{path}, 20*time.Minute)
+	rr, out, err := nativeReplayMode(c.Pkg, []string{path}, 20*time.Minute, c.Label == "no-data-race")
 	if err != nil {
 		fmt.Println(err)
 		fmt.Println(tail(out, 3000))
